@@ -72,7 +72,7 @@ PROPS = {
     "C14": {
         "claim": "Theorems about the transcription of newValueSetFromStruct / newValueSet / NewFunc: reported values are exactly the exported non-marker fields in order (struct and pointer forms alike), one type-only value per position for positional forms, names lower-cased from tag or field, emptied by typeOnly, subtype from the tag, a final error result stripped, mixed and doubly-indirected marker structs rejected. Tied to the code by differential runs over function types synthesised with reflect (random tags incl. odd spellings, unexported fields, error positions, non-function values).",
         "note": "Tag strings are parsed by the model's parseTag, validated against the real parser on generated tags; reflect itself is modelled.",
-        "theorems": [],
+        "theorems": ["ArgMapper.C14.struct_values", "ArgMapper.C14.field_label", "ArgMapper.C14.ptr_equiv", "ArgMapper.C14.positional_values", "ArgMapper.C14.error_stripped", "ArgMapper.C14.no_error_kept", "ArgMapper.C14.rejects_mix", "ArgMapper.C14.rejects_double_pointer"],
         "modules": ["ArgMapper.Props.C14"],
         "rule": "sig: at least one reported value.",
         "runs": {"quick": [fam("sig", 2500, 5)], "thorough": [fam("sig", 150000, 6), fam("sig", 50000, 3)]},
@@ -80,7 +80,7 @@ PROPS = {
     "C15": {
         "claim": "Theorems about NewValueSet (values reported back lower-cased in order, lookups by name / type / type+subtype under the stated uniqueness, signature render/load round trip). Tied to the code by differential runs over random value lists with provenance-carrying values; built functions inside conversion chains are exercised by the resolver families.",
         "note": "The struct-tag string round trip is an explicit hypothesis (TagRoundTrips), discharged by evaluation for sample labels and checked on the real code by the correspondence run.",
-        "theorems": [],
+        "theorems": ["ArgMapper.C15.values_roundtrip", "ArgMapper.C15.lookup_named", "ArgMapper.C15.lookup_typed", "ArgMapper.C15.lookup_typed_sub", "ArgMapper.C15.signature_roundtrip", "ArgMapper.C15.signature_positional_pre_repair"],
         "modules": ["ArgMapper.Props.C15"],
         "rule": "vset: at least one value; sig: positional signatures.",
         "runs": {"quick": [fam("vset", 1500, 6), fam("sig", 1000, 5)], "thorough": [fam("vset", 100000, 6), fam("sig", 50000, 5)]},
@@ -88,7 +88,7 @@ PROPS = {
     "C16": {
         "claim": "Theorems about the option builder: every key holds its last write, names are matched through lower-casing, call options override defaults, nil values write nothing, a nil option yields the dedicated error, permuting options with pairwise distinct keys leaves the maps unchanged. Tied to the code by comparing the real builder's four maps (hook VerifBuilder) with the model over random option lists with casings, duplicates, default/call splits and a random permutation.",
         "note": "strings.ToLower is modelled as ASCII lower-casing.",
-        "theorems": [],
+        "theorems": ["ArgMapper.C16.last_wins", "ArgMapper.C16.build_ok", "ArgMapper.C16.nil_option", "ArgMapper.C16.nil_value_ignored", "ArgMapper.C16.case_insensitive", "ArgMapper.C16.lower_idem", "ArgMapper.C16.call_overrides_default", "ArgMapper.C16.permutation"],
         "modules": ["ArgMapper.Props.C16"],
         "rule": "opts: at least one option.",
         "runs": {"quick": [fam("opts", 2000, 8)], "thorough": [fam("opts", 100000, 10), fam("opts", 50000, 5)]},
@@ -96,10 +96,26 @@ PROPS = {
     "C17": {
         "claim": "Theorems about Result.Len/Out/Err for any list of returned values with or without a final error, and for resolution failures. Tied to the code by differential runs over result arities 0-5 with error / concrete-error / value results in every position.",
         "note": "Static result types as reported by reflect are modelled by type ids.",
-        "theorems": [],
+        "theorems": ["ArgMapper.C17.partition_err", "ArgMapper.C17.partition_plain", "ArgMapper.C17.resolution_failure"],
         "modules": ["ArgMapper.Props.C17"],
         "rule": "result: any scenario (arity 0 included).",
         "runs": {"quick": [fam("result", 2000, 5)], "thorough": [fam("result", 100000, 5)]},
         "exhaustive": {"quick": False, "thorough": False},
+    },
+    "C01": {
+        "claim": "(theorems pending) Every executed function receives supplied or previously returned values whose origin label is compatible with the parameter under the matching table. Tied to the code by trace conformance: the real call graph, requirement order, Dijkstra pop orders, chosen paths, every argument list and the outcome are replayed through the model; the predicate is evaluated on the real trace with provenance ids.",
+        "note": "reflect / hclog / user function bodies are modelled (arbitrary behaviours); twin interfaces (finding F14) excluded by hypothesis once proved.",
+        "theorems": [],
+        "facts": {"r5SkipSame": "true", "r6NameTest": "true", "publishAfterUpdate": "true", "trackReaching": "true", "takeValuedNamed": "true", "memoCopy": "true"},
+        "rule": "call: at least one function executed, or an unsatisfied error with a converter present.",
+        "runs": {"quick": [fam("call", 600, 0)], "thorough": [fam("call", 100000, 0)]},
+    },
+    "C06": {
+        "claim": "(theorems pending) No panic, crash or unbounded recursion on well-formed use. Decided on the model's explicit panic sites and fuel; real stack / reflect behaviour by crash-isolated exploration (worker restarted after a fatal stack overflow).",
+        "note": "partial: only the modelled panic sites and the modelled recursion are covered by the model; the rest by exploration.",
+        "theorems": [],
+        "facts": {"r5SkipSame": "true", "r6NameTest": "true", "publishAfterUpdate": "true", "trackReaching": "true", "takeValuedNamed": "true", "memoCopy": "true"},
+        "rule": "call: at least one function executed, or an unsatisfied error with a converter present; sig: positional signatures.",
+        "runs": {"quick": [fam("call", 800, 0), fam("sig", 600, 5)], "thorough": [fam("call", 200000, 0), fam("sig", 50000, 5)]},
     },
 }
